@@ -211,6 +211,15 @@ pub fn active() -> bool {
     STATE.try_with(|s| !s.get().is_null()).unwrap_or(false)
 }
 
+/// the per-run context a pool helper thread inherits from the thread that starts a closure
+pub fn context_capture() -> usize {
+    STATE.try_with(|s| s.get() as usize).unwrap_or(0)
+}
+pub fn context_install(p: usize) {
+    let _ = STATE.try_with(|s| s.set(p as *mut SysState));
+    let _ = IN_HOOK.try_with(|h| h.set(false));
+}
+
 struct HookGuard;
 impl Drop for HookGuard {
     fn drop(&mut self) {
@@ -304,6 +313,85 @@ fn crash_now(st: &mut SysState) {
 // ---------------------------------------------------------------------------------------
 // the interposed symbols
 // ---------------------------------------------------------------------------------------
+
+/// The clocks of a simulated thread show virtual time: std's `Instant` and `SystemTime` (timed
+/// waits of channels and condition variables compute their deadlines from them) must agree with
+/// the simulator's timers and must not leak real time into a run.
+#[no_mangle]
+pub unsafe extern "C" fn clock_gettime(clock: libc::clockid_t, tp: *mut libc::timespec) -> c_int {
+    if !tp.is_null() && active() {
+        if let Some(now) = simkit::try_with(|s| s.now_ns) {
+            let base: u64 = match clock {
+                libc::CLOCK_REALTIME | libc::CLOCK_REALTIME_COARSE => 1_700_000_000,
+                _ => 1_000_000,
+            };
+            (*tp).tv_sec = (base + now / 1_000_000_000) as libc::time_t;
+            (*tp).tv_nsec = (now % 1_000_000_000) as _;
+            return 0;
+        }
+    }
+    let r = simkit::threads::raw_syscall6(libc::SYS_clock_gettime as i64, clock as i64, tp as i64, 0, 0, 0, 0);
+    if r < 0 {
+        set_errno(-r as i32);
+        -1
+    } else {
+        0
+    }
+}
+
+/// libc's `syscall()`. Everything passes through unchanged except futex waits and wakes of
+/// simulated threads (std's Mutex, Condvar, thread parking and therefore mpsc all end here):
+/// those are virtual, see simkit::threads. (Declared with fixed arguments: on x86-64 a variadic
+/// call passes integer arguments exactly like a fixed one.)
+#[no_mangle]
+pub unsafe extern "C" fn syscall(num: c_long, a1: c_long, a2: c_long, a3: c_long, a4: c_long, a5: c_long, a6: c_long) -> c_long {
+    let mut virt: c_long = 0;
+    if num == libc::SYS_futex {
+        let op = (a2 as i32) & 0x7f;
+        match op {
+            0 | 9 => {
+                // FUTEX_WAIT (relative timeout), FUTEX_WAIT_BITSET (absolute)
+                let timeout = if a4 == 0 {
+                    None
+                } else {
+                    let ts = &*(a4 as *const libc::timespec);
+                    let ns = (ts.tv_sec as i128) * 1_000_000_000 + ts.tv_nsec as i128;
+                    let rel = if op == 9 {
+                        let clock = if (a2 as i32) & 256 != 0 { libc::CLOCK_REALTIME } else { libc::CLOCK_MONOTONIC };
+                        let mut now: libc::timespec = std::mem::zeroed();
+                        libc::clock_gettime(clock, &mut now);
+                        ns - ((now.tv_sec as i128) * 1_000_000_000 + now.tv_nsec as i128)
+                    } else {
+                        ns
+                    };
+                    // (clock_gettime above is the interposed one: virtual time, no jitter)
+                    Some(rel.max(0).min(u64::MAX as i128) as u64)
+                };
+                if let Some(r) = simkit::threads::futex_wait(a1 as usize, a3 as u32, timeout) {
+                    if r == 0 {
+                        return 0;
+                    }
+                    set_errno(r);
+                    return -1;
+                }
+            }
+            1 | 10 => {
+                virt = simkit::threads::futex_wake(a1 as usize, a3 as u32) as c_long;
+            }
+            _ => {}
+        }
+    }
+    let r = simkit::threads::raw_syscall6(num as i64, a1 as i64, a2 as i64, a3 as i64, a4 as i64, a5 as i64, a6 as i64);
+    if (-4095..0).contains(&r) {
+        set_errno(-r as i32);
+        if virt > 0 {
+            return virt;
+        }
+        -1
+    } else {
+        (r as c_long) + virt
+    }
+}
 
 #[no_mangle]
 pub unsafe extern "C" fn open64(path: *const c_char, flags: c_int, mode: mode_t) -> c_int {
